@@ -1,0 +1,9 @@
+//go:build !verif
+
+package jsonpath
+
+// Observation hooks for the verification harness (build tag `verif`); no-ops otherwise.
+
+func verifParsed(root syntaxNode) {}
+
+func verifFilterList(list []interface{}, members int) {}
